@@ -75,6 +75,15 @@ POSITIONS = [
     ("var-two-typed", "var a, b int = {X}\nprint(a, b)", {"multi"}),
     ("short-two", "a, b := {X}\nprint(a, b)", {"multi"}),
     ("short-two-second", "a, b := 1, {X}\nprint(a)", set(SINGLE)),
+    # a short multi-definition ASSIGNS to the names that exist on the same level: the value must have the variable's type
+    # (fix 4a3f869: `a := 1; a, b := "s", 2` was accepted and a silently became a string)
+    ("short-two-existing-first", "lv := 1\nlv, nv := {X}, 2\nprint(lv, nv)", {"int"}),
+    ("short-two-existing-second", 'lv := "a"\nnv, lv := 2, {X}\nprint(lv, nv)', {"string"}),
+    ("short-two-existing-slice", "lv := []int{1}\nlv, nv := {X}, 2\nprint(len(lv), nv)", {"[]int"}),
+    ("short-two-existing-bool", "lv := true\nnv, lv := 2, {X}\nprint(lv, nv)", {"bool"}),
+    ("short-two-existing-call", "lv := 1\nlv, nv := {X}\nprint(lv, nv)", {"multi"}),
+    ("short-two-existing-call-mismatch", 'lv := "a"\nlv, nv := {X}\nprint(lv, nv)', set()),
+    ("short-two-existing-call-second-mismatch", "lv := true\nnv, lv := {X}\nprint(lv, nv)", set()),
     ("assign-int", "ivar = {X}", {"int"}),
     ("assign-string", "svar = {X}", {"string"}),
     ("assign-bool", "bvar = {X}", {"bool"}),
@@ -136,6 +145,9 @@ FUNC_POSITIONS = [
     ("return-count-more", "func r() int {\n\treturn 1, {X}\n}\nprint(r())", set()),
     ("return-count-less", "func r() (int, int) {\n\treturn {X}\n}\na, b := r()\nprint(a, b)", set()),
     ("return-missing", "func r() int {\n\tprint({X})\n}\nprint(r())", set()),
+    # a function's own variable may have the name of a global and another type (it is another variable)
+    ("shadow-global-in-func", "func r() {\n\tivar, nv := {X}, 1\n\tprint(ivar, nv)\n}\nr()", set(SINGLE)),
+    ("shadow-global-in-func-call", "func r() {\n\tsvar, nv := {X}\n\tprint(svar, nv)\n}\nr()", {"multi"}),
     ("nested-return", "func r() int {\n\tif ivar == 1 {\n\t\treturn {X}\n\t}\n\treturn 1\n}\nprint(r())", {"int"}),
     ("nested-return-void", "func r() {\n\tif ivar == 1 {\n\t\treturn {X}\n\t}\n}\nr()", set()),
 ]
